@@ -8,6 +8,8 @@ package standard
 //@ type Service
 //@   guarded_by blockRootToSlotMu: blockRootToSlot
 //@   guarded_by executionChainHeadMu: executionChainHeadRoot, executionChainHeadHeight
+//@   // established by New
+//@   valid self.blockRootToSlot != nil && self.signedBeaconBlockProvider != nil
 //@
 //@ spec func headerSlot(root phase0.Root) phase0.Slot
 //@ spec func epochNow() phase0.Epoch
@@ -42,3 +44,23 @@ package standard
 //@   ensures epochNow() > 64 ==> forall r phase0.Root :: in(s.blockRootToSlot, r) <==> (in(old(s.blockRootToSlot), r) && old(s.blockRootToSlot[r]) >= firstSlotOf(epochNow() - 64))
 //@   ensures forall r phase0.Root :: in(s.blockRootToSlot, r) ==> s.blockRootToSlot[r] == old(s.blockRootToSlot[r])
 //@   modifies contents(s.blockRootToSlot)
+//@
+//@ // ---- C16: event handlers ----
+//@ // what go-eth2-client's decoders guarantee of a signed block of a given version: the container for that version,
+//@ // its message and its body are present (their JSON decoders reject a missing message/body; SSZ allocates them)
+//@ spec func blockPresent(b *spec.VersionedSignedBeaconBlock) bool = (b.Version == spec.DataVersionCapella ==> b.Capella != nil && b.Capella.Message != nil && b.Capella.Message.Body != nil) && (b.Version == spec.DataVersionDeneb ==> b.Deneb != nil && b.Deneb.Message != nil && b.Deneb.Message.Body != nil)
+//@
+//@ func (*Service).handleBlock
+//@   // assumed of go-eth2-client's event stream: the handler gets a non-nil event whose data, if any, is the non-nil
+//@   // event structure of the subscribed topic
+//@   requires event != nil && (!isnil(event.Data) ==> hastype(event.Data, "*apiv1.BlockEvent") && unbox(event.Data, "*apiv1.BlockEvent") != nil)
+//@   requires unheld(s.blockRootToSlotMu)
+//@
+//@ func (*Service).handleHead
+//@   requires event != nil && (!isnil(event.Data) ==> hastype(event.Data, "*apiv1.HeadEvent") && unbox(event.Data, "*apiv1.HeadEvent") != nil)
+//@   requires unheld(s.executionChainHeadMu)
+//@   assumes call SignedBeaconBlock#1 (resp, err): err == nil ==> resp != nil && resp.Data != nil && blockPresent(resp.Data)
+//@
+//@ func (*Service).updateExecutionHeadFromBlock
+//@   requires block != nil && blockPresent(block)
+//@   requires unheld(s.executionChainHeadMu)
